@@ -84,4 +84,6 @@ THEOREMS = [
     ("DastardV.Lemmas.C03Oracle", "DastardV.C03.chkFrames_iff"),
     ("DastardV.Lemmas.C03Oracle", "DastardV.C03.chkFrames_abut"),
     ("DastardV.Lemmas.C03Oracle", "DastardV.C03.chkShape_sound"),
+    ("DastardV.Lemmas.C03Oracle", "DastardV.C03.chkStream_sound"),
+    ("DastardV.Lemmas.C03Oracle", "DastardV.C03.chkC03_sound"),
 ]
